@@ -25,7 +25,7 @@ def mk_structure(t, n, strat):
     upper = [i * n + j for i in range(n) for j in range(n) if i < j]
     lower = [i * n + j for i in range(n) for j in range(n) if i > j]
     diag = [i * n + i for i in range(n)]
-    obl = [{'kind': 'const', 'region': 'L', 'cells': upper, 'value': 0}, {'kind': 'const', 'region': 'L', 'cells': diag, 'value': 1, 'mode': 'ALG'}, {'kind': 'const', 'region': 'U', 'cells': lower, 'value': 0}]
+    obl = [{'kind': 'const', 'region': 'L', 'cells': upper, 'value': 0}, {'kind': 'const', 'region': 'L', 'cells': diag, 'value': 1, 'mode': 'EXACTDIV'}, {'kind': 'const', 'region': 'U', 'cells': lower, 'value': 0}]
     # U[i,j] depends at least on rows 0..i x (cols 0..i-1 and j); L[i,j] on rows 0..j and i x cols 0..j
     for (i, j) in [(n - 1, n - 1), (n // 2, n - 1)]:
         need = sorted(set(r * n + c for r in range(i + 1) for c in list(range(i)) + [j]))
